@@ -150,6 +150,34 @@ func runOffer(o *Out, r *rand.Rand, thorough bool, _ []string) {
 		}
 		o.Case(input, decodeAccept(version, resp, nKeys))
 	}
+	// overlapping offers of the same fresh key, back to back (version 1): the second must see the first's transfer in
+	// progress - the in-flight mark has to be in place when the first reply is given
+	nOverlap := 60
+	if thorough {
+		nOverlap = 2000
+	}
+	for c := 0; c < nOverlap; c++ {
+		a1 := signRecPad(keyFromSeed(r), net.IP{34, 72, byte(c / 250), byte(1 + c%250)}, 5000, 1, 0)
+		a2 := signRecPad(keyFromSeed(r), net.IP{34, 73, byte(c / 250), byte(1 + c%250)}, 5000, 1, 0)
+		slots.p.VerifVersionsCacheSet(a1, 1)
+		slots.p.VerifVersionsCacheSet(a2, 1)
+		var key []byte
+		for {
+			key = make([]byte, 16)
+			r.Read(key)
+			idh := sha256.Sum256(key)
+			if portalwire.VerifInRange(slots.p.Self().ID(), radius, idh[:]) {
+				break
+			}
+		}
+		r1, e1 := slots.p.VerifHandleOffer(a1, &net.UDPAddr{IP: a1.IP(), Port: 5000}, &portalwire.Offer{ContentKeys: [][]byte{key}})
+		r2, e2 := slots.p.VerifHandleOffer(a2, &net.UDPAddr{IP: a2.IP(), Port: 5000}, &portalwire.Offer{ContentKeys: [][]byte{key}})
+		if e1 != nil || e2 != nil {
+			o.Case("overlap", "error")
+			continue
+		}
+		o.Case("overlap", decodeAccept(1, r1, 1)+" / "+decodeAccept(1, r2, 1))
+	}
 	// an unsupported negotiated version: no verdicts, an error
 	asker := signRecPad(keyFromSeed(r), net.IP{34, 71, 1, 1}, 5000, 1, 0)
 	slots.p.VerifVersionsCacheSet(asker, 2)
